@@ -127,21 +127,18 @@ Proof.
     + apply any_longs_np.
     + generalize (@nil tag). clear El. induction Hall as [|y r Hy Hr IHr]; intros acc; [discriminate|].
       rewrite av_list_cons. destruct (any_tag y =? any_tag x); [|discriminate].
-      destruct (any_tree y); cbn [tbind]; try congruence. apply IHr.
+      destruct (any_tree y); cbn [tbind]; try congruence; try apply IHr.
   - cbn [any_tree]. generalize (@nil (list N * tag)).
     induction Hall as [|kv r Hy Hr IHr]; intros acc; [discriminate|].
     rewrite av_map_cons. destruct (name_too_long (fst kv)); [discriminate|].
-    destruct (any_tree (snd kv)); cbn [tbind]; try congruence. apply IHr.
+    destruct (any_tree (snd kv)); cbn [tbind]; try congruence; try apply IHr.
 Qed.
 
 Theorem np_all : forall t, np_ok t.
 Proof.
   induction t as [|sg w| | | |e IH|n e IH|e IH|fs IH|e IH| | |] using gtype_ind'; intros v Ht;
     destruct v; try discriminate; cbn [has_type] in Ht.
-  - discriminate.
   - cbn [enc]. unfold int_tree. repeat destruct (_ =? _); discriminate.
-  - discriminate.
-  - discriminate.
   - cbn [enc]. unfold str_tree. destruct (_ <? _); discriminate.
   - rewrite !andb_true_iff in Ht. apply (np_seq (YSlice e) e l); auto. apply Ht.
   - rewrite !andb_true_iff in Ht. apply (np_seq (YArray n e) e l); eauto. apply Ht.
